@@ -10,6 +10,8 @@ RULE = ('cases = generated G-SEL spec (derivation DAGs/cycles, shared options, s
         'instance + set equality with R-SEL + same decision set => same state; non-trivial = >= 2 selection choices '
         'offered at the same time somewhere in the walk, or a shared-option / cycle label, and >= 2 reference '
         'architectures; distinct by sha1(spec)')
+FUZZ_MODULES = ['adsg_core.graph.traversal', 'adsg_core.graph.choices', 'adsg_core.graph.incompatibility', 'adsg_core.graph.influence_matrix']   # thorough tier: atheris campaign over these modules (vf/fuzz.py)
+FUZZ_RUNS = 4000
 BUDGET = {'quick': 600, 'thorough': 10000}
 MAX_STATES = {'quick': 1200, 'thorough': 20000}
 
